@@ -1,0 +1,175 @@
+// Verification hooks (compiled only with `--cfg slawlor_ractor_verif`).
+//
+// Thin wrappers that expose the crate-private session election function and the
+// node server's candidate table to an external differential-testing harness.
+// They call the real functions; no logic lives here.
+
+//! Verification hooks for the node server (only with `--cfg slawlor_ractor_verif`).
+
+use std::collections::{HashMap, HashSet};
+use std::num::NonZeroU64;
+
+use ractor::{Actor, ActorCell, ActorId, ActorRef, SupervisionEvent};
+
+use super::{
+    auth_protocol, elect_sessions, NodeEventSubscription, NodeServer, NodeServerMessage,
+    NodeServerSessionInformation, NodeServerState, SessionCheckReply, SessionElectionCandidate,
+};
+
+fn pid(id: ActorId) -> u64 {
+    id.pid()
+}
+
+/// Run the real `elect_sessions` on candidates `(local pid, is_server, nonce (0 = legacy))`.
+pub fn elect(this_node_name: &str, peer_name: &str, candidates: &[(u64, bool, u64)]) -> Vec<u64> {
+    let cands = candidates
+        .iter()
+        .map(|(id, is_server, nonce)| SessionElectionCandidate {
+            actor_id: ActorId::Local(*id),
+            is_server: *is_server,
+            connection_id: NonZeroU64::new(*nonce),
+        })
+        .collect::<Vec<_>>();
+    elect_sessions(this_node_name, peer_name, cands)
+        .into_iter()
+        .map(pid)
+        .collect()
+}
+
+fn reply_code(reply: SessionCheckReply) -> u8 {
+    match reply {
+        SessionCheckReply::NoOtherConnection => 0,
+        SessionCheckReply::ThisConnectionContinues => 1,
+        SessionCheckReply::OtherConnectionContinues => 2,
+        SessionCheckReply::DuplicateConnection => 3,
+    }
+}
+
+/// A real `NodeServerState` plus the `NodeServer` handler object, driven directly.
+#[allow(missing_debug_implementations)]
+pub struct VerifNode {
+    server: NodeServer,
+    myself: ActorRef<NodeServerMessage>,
+    state: NodeServerState,
+}
+
+impl VerifNode {
+    /// Build a state for node `this_name`; `anchor` stands in for the listener / server cells.
+    pub fn new(this_name: &str, anchor: ActorCell) -> Self {
+        let server = NodeServer::new(
+            0,
+            "cookie".to_string(),
+            this_name.to_string(),
+            "verif".to_string(),
+            None,
+            None,
+        );
+        let state = NodeServerState {
+            node_sessions: HashMap::new(),
+            listener: ActorRef::from(anchor.clone()),
+            node_id_counter: 0,
+            this_node_name: auth_protocol::NameMessage {
+                flags: None,
+                name: this_name.to_string(),
+                connection_string: String::new(),
+                connection_id: 0,
+            },
+            subscriptions: HashMap::new(),
+            connection_ids: HashMap::new(),
+            authenticated_sessions: HashSet::new(),
+        };
+        Self {
+            server,
+            myself: ActorRef::from(anchor),
+            state,
+        }
+    }
+
+    /// Insert a session record the way `ConnectionOpened` does after spawning the session.
+    pub fn open_session(&mut self, cell: ActorCell, is_server: bool) {
+        let node_id = self.state.node_id_counter;
+        let id = cell.get_id();
+        if self.state.node_sessions.contains_key(&id) {
+            return;
+        }
+        let ses = NodeServerSessionInformation::new(
+            ActorRef::from(cell),
+            is_server,
+            node_id,
+            "verif".to_string(),
+        );
+        self.state.node_sessions.insert(id, ses);
+        self.state.node_id_counter += 1;
+    }
+
+    fn name(peer: &str, connection_id: u64) -> auth_protocol::NameMessage {
+        auth_protocol::NameMessage {
+            flags: None,
+            name: peer.to_string(),
+            connection_string: String::new(),
+            connection_id,
+        }
+    }
+
+    /// `register_session`
+    pub fn register(&mut self, id: ActorId, peer: &str, connection_id: u64) -> bool {
+        self.state
+            .register_session(id, Self::name(peer, connection_id))
+    }
+
+    /// `check_candidate`
+    pub fn check_candidate(&self, id: ActorId) -> u8 {
+        reply_code(self.state.check_candidate(id))
+    }
+
+    /// `check_session`
+    pub fn check_session(&self, peer: &str, connection_id: u64) -> u8 {
+        reply_code(self.state.check_session(&Self::name(peer, connection_id)))
+    }
+
+    /// `commit_authenticated`: `(candidate_survives, loser pids)`
+    pub fn commit(&mut self, id: ActorId) -> Option<(bool, Vec<u64>)> {
+        self.state.commit_authenticated(id).map(|e| {
+            (
+                e.candidate_survives,
+                e.losers.iter().map(|l| pid(l.get_id())).collect(),
+            )
+        })
+    }
+
+    /// `is_elected`
+    pub fn is_elected(&self, id: ActorId) -> bool {
+        self.state.is_elected(id)
+    }
+
+    /// Pids of the sessions `GetSessions` would list.
+    pub fn listed_sessions(&self) -> Vec<u64> {
+        self.state
+            .node_sessions
+            .keys()
+            .filter(|id| self.state.authenticated_sessions.contains(id))
+            .map(|id| pid(*id))
+            .collect()
+    }
+
+    /// Install an event subscription exactly like `SubscribeToEvents`.
+    pub fn subscribe(&mut self, id: &str, subscription: Box<dyn NodeEventSubscription>) {
+        self.state.subscriptions.insert(id.to_string(), subscription);
+    }
+
+    /// Run the real message handler on this state.
+    pub async fn handle(&mut self, message: NodeServerMessage) -> bool {
+        self.server
+            .handle(self.myself.clone(), message, &mut self.state)
+            .await
+            .is_ok()
+    }
+
+    /// Run the real supervision handler on this state.
+    pub async fn handle_supervisor_evt(&mut self, event: SupervisionEvent) -> bool {
+        self.server
+            .handle_supervisor_evt(self.myself.clone(), event, &mut self.state)
+            .await
+            .is_ok()
+    }
+}
